@@ -4,7 +4,8 @@
 From Coq Require Import String.
 From Statham.Model Require Import Str Json Elem PyNum Validate Equality Names Tables Parser.
 From Statham.Generated Require Gen_signatures Gen_parser_tables.
-From Statham.Proofs Require Import Agree_tables ParserDefaultProof.
+From Statham.Model Require Import SerJson.
+From Statham.Proofs Require Import Agree_tables ParserDefaultProof C07Ser.
 Local Open Scope string_scope.
 Local Open Scope list_scope.
 
@@ -44,3 +45,24 @@ Example C07_one_element_type_list :
     (JObj [(s_ "type", JArr [JStr (s_ "string")]); (s_ "default", JStr (s_ "x"))]) [] = POk (e, st)
     /\ elem_default e = Some (JStr (s_ "x")).
 Proof. eexists. eexists. split; vm_compute; reflexivity. Qed.
+
+(* ---- the JSON serializer ---- *)
+(* every element other than Nothing() is written as an object whose "default" is exactly the
+   element's default (absent when it has none) and whose "description" is its description, for any
+   caller definitions: neither is dropped, altered, invented or moved to another schema object
+   (sub-elements are written inside their own objects by the same function) *)
+Theorem C07_serialized_default : forall defs e, e <> ENothing ->
+  match ser_top true true defs e with
+  | JObj kvs => lookup (s_ "default") kvs = elem_default e
+  | _ => False
+  end.
+Proof. exact ser_keeps_default. Qed.
+Print Assumptions C07_serialized_default.
+
+Theorem C07_serialized_description : forall defs e,
+  match ser_top true true defs e with
+  | JObj kvs => lookup (s_ "description") kvs = option_map JStr (elem_description e)
+  | _ => e = ENothing
+  end.
+Proof. exact ser_keeps_description. Qed.
+Print Assumptions C07_serialized_description.
